@@ -250,6 +250,23 @@ def handle (toks : List String) : String :=
       | .ok d => "ok " ++ " ".intercalate (d.map fun kv => kv.1 ++ ":" ++ showFV kv.2)
       | .error e => errStr e
     | _, _, _ => "bad-arg"
+  | ["toastm", modName, letter, now, rec] =>
+    -- to_astm() of the wrapped record, and the dictionary obtained by wrapping that list again
+    match findRecordSpec modName letter, parseCps now, parseRecord rec with
+    | some S, some nowS, some r => match Astm.Fields.wrap S nowS r with
+      | .ok d =>
+        let av := Astm.Fields.toAstmOf d
+        let showVs := fun (vs : List Astm.Fields.V) => ",".intercalate (vs.map showV)
+        let showAV := fun (a : Astm.Fields.AV) => match a with
+          | .leaf v => showV v
+          | .comp vs => "c(" ++ showVs vs ++ ")"
+          | .rep items => "r(" ++ ";".intercalate (items.map showVs) ++ ")"
+        let again := match Astm.Fields.wrap S nowS (Astm.Fields.asRecord av) with
+          | .ok d2 => if d2 == d then "same" else "differs"
+          | .error e => errStr e
+        "ok " ++ "|".intercalate (av.map showAV) ++ " ## " ++ again
+      | .error e => errStr e
+    | _, _, _ => "bad-arg"
   | "arch" :: toks =>
     -- F:<stamp>.<k>:<hex>  pre-existing file;  M:<hex> message of the next writer;  C:<w>.<now> readClock;  S:<w> step
     let parseName := fun (t : String) => match t.splitOn "." with
